@@ -38,11 +38,12 @@ Definition mk_tshape (sa : list (nat * S.pv)) (kt : list (nat * S.str)) (sb : li
   {| a_ser := nat_lookup (S.POther 0) sa; k_text := nat_lookup [] kt; s_back := s_lookup sb |}.
 
 (* everything that is not serdes' business is absent *)
-Definition null_rt : C.runtime := CT.mk_runtime [] [] [] [] [] [] [] [] [] [] (C.PAtom 0) [].
+Definition null_rt : C.runtime := CT.mk_runtime [] [] [] [] [] [] [] [] [] [] [] (C.PAtom 0) [].
 
 (* ------------------------------------------------------------------ comparison with observations *)
 Fixpoint list_sim (a b : list C.pv) : bool :=
   match a, b with [], [] => true | x :: r, y :: t => CT.pv_sim x y && list_sim r t | _, _ => false end.
+Definition pair_sim (a b : C.pv * C.pv) : bool := CT.pv_sim (fst a) (fst b) && CT.pv_sim (snd a) (snd b).
 Fixpoint pairs_sim (a b : list (C.pv * C.pv)) : bool :=
   match a, b with
   | [], [] => true
@@ -71,8 +72,9 @@ Definition ok_values (c : io_case) : bool :=
   match c with (x, ov, _, _) => res_cmp list_sim (C.itervalues rt_io x) ov end.
 Definition ok_items (c : io_case) : bool :=
   match c with (x, _, oi, _) => res_cmp pairs_sim (C.iteritems rt_io E x) oi end.
-Definition ok_items_fixed (c : io_case) : bool :=
-  match c with (x, _, oi, _) => res_cmp pairs_sim (iteritems_fixed E rt_io (ind_unpack P E bk) x) oi end.
+(* the previous definition of Core.unpack2 (scalar elements through itervalues): information only *)
+Definition ok_items_pinned (c : io_case) : bool :=
+  match c with (x, _, oi, _) => res_cmp pairs_sim (iteritems_pinned E rt_io x) oi end.
 Definition ok_load (c : io_case) : bool :=
   match c with (x, _, _, ol) => res_cmp CT.pv_sim (C.load rt_io x) ol end.
 (* inside the region where the commutation theorems speak *)
